@@ -521,6 +521,8 @@ class Gen:
                 names = [n for n in names if n not in taken] or [self.prog.fresh("own")]
             for fn in names:
                 ft = self.type(depth - 1, hashable=hashable)
+                if self.opts.qualifiers_on_fields and flavour in ("dataclass", "dc_slots", "dc_kwonly", "dc_frozen") and rng.random() < 0.12:
+                    ft = self.wrap_of(ft, "final")  # `x: Final[T]` (possibly with a default) is an ordinary instance field
                 fields.append([fn, ft, None])
             if base is not None:
                 fields = [list(f) for f in base.info["fields"]] + fields
